@@ -16,14 +16,14 @@ TRUSTED = ["CPython/PyTorch object semantics as observed through untyped_storage
            "histories are built from the derivations the property names; handing one tensor's `cores` list object to another constructor is not generated"]
 ASSUMPTIONS = []
 
-PURE = ["dot", "norm", "sum", "mean", "var", "sobol", "mean_marg", "dgsm", "relerr"]
+PURE = ["dot", "norm", "sum", "mean", "var", "sobol", "mean_marg", "dgsm", "relerr", "mask_small", "mask_small"]
 DERIVE = ["slice", "transpose", "clone", "add", "sub", "mul", "smul", "sadd", "flip", "cat", "cumsum", "round_tt_copy", "round_copy",
-          "decompress", "tt", "neg"]
+          "decompress", "tt", "neg", "hadamard_sum"]
 INPLACE = ["round_tt", "round_tucker", "round", "orthogonalize", "setitem", "set_factors", "as_leaf"]
 
 
 def cases(rng, tier):
-    n = {"quick": 70, "thorough": 800, "search": 300}[tier]
+    n = {"quick": 150, "thorough": 800, "search": 300}[tier]
     L = {"quick": 15, "thorough": 40, "search": 15}[tier]
     out = []
     for _ in range(n):
@@ -53,12 +53,15 @@ def hash_storage(st):
 
 def snapshot(t):
     return {"dense": t.torch().detach().double().numpy().copy(), "kinds": from_tn(t).kinds(), "ranks": from_tn(t).ranks(),
-            "tranks": from_tn(t).tranks()}
+            "tranks": from_tn(t).tranks(),
+            # the slice annotations travel with the tensor (clone() shares them) and steer tn.mask: they are part of its value
+            "idxs": [np.array(i).copy() for i in getattr(t, "idxs", [])]}
 
 
 def same(s1, s2):
     return s1["kinds"] == s2["kinds"] and s1["ranks"] == s2["ranks"] and s1["tranks"] == s2["tranks"] and \
-        s1["dense"].shape == s2["dense"].shape and np.array_equal(s1["dense"], s2["dense"])
+        s1["dense"].shape == s2["dense"].shape and np.array_equal(s1["dense"], s2["dense"]) and \
+        len(s1["idxs"]) == len(s2["idxs"]) and all(np.array_equal(a, b) for a, b in zip(s1["idxs"], s2["idxs"]))
 
 
 def run_case(ctx, case):
@@ -116,6 +119,12 @@ def run_case(ctx, case):
                 tn.mean(a, marginals=margs)
             elif op == "dgsm":
                 tn.dgsm(a, bounds=None, marginals=margs) if False else tn.sobol(a, tn.symbols(N)[-1], marginals=margs)
+            elif op == "mask_small":
+                # a mask shorter than the tensor along every mode (legal: trailing slices are matched to the mask's last one)
+                mk = tn.Tensor(torch.tensor(np.array([rng.randint(0, 1) for _ in range(2 ** N)], dtype=np.float64).reshape([2] * N)))
+                new = tn.mask(a, mk)
+            elif op == "hadamard_sum":
+                tn.hadamard_sum([a, b])
             elif op == "slice":
                 key = tuple(py_key([gen_slice(rng, s) for s in shape]))
                 r = a[key]
